@@ -182,7 +182,7 @@ class DTWSettings:
     def set_max_dist(self, s1, s2):
         _, _, ival_fn = innerdistance.inner_dist_fns(self.inner_dist, use_ndim=self.use_ndim)
         if self.use_pruning:
-            self.adj_max_dist = ival_fn(ub_euclidean(s1, s2, inner_dist=self.inner_dist))
+            self.adj_max_dist = ival_fn(ub_euclidean(s1, s2, inner_dist=self.inner_dist, use_ndim=self.use_ndim))
 
     def kwargs(self):
         return {
@@ -263,9 +263,9 @@ def lb_keogh(s1, s2, **kwargs):
     return result_fn(t)
 
 
-def ub_euclidean(s1, s2, inner_dist=innerdistance.default):
+def ub_euclidean(s1, s2, inner_dist=innerdistance.default, use_ndim=False):
     """ See :meth:`dtaidistance.ed.euclidean_distance`"""
-    return ed.distance(s1, s2, inner_dist=inner_dist)
+    return ed.distance(s1, s2, inner_dist=inner_dist, use_ndim=use_ndim)
 
 
 def distance(s1, s2, only_ub=False, **kwargs):
@@ -300,7 +300,7 @@ def distance(s1, s2, only_ub=False, **kwargs):
     if s.adj_max_length_diff is not None and abs(r - c) > s.adj_max_length_diff:
         return inf
     if only_ub:
-        return ival_fn(ub_euclidean(s1, s2, inner_dist=s.inner_dist))
+        return ival_fn(ub_euclidean(s1, s2, inner_dist=s.inner_dist, use_ndim=s.use_ndim))
 
     psi_1b, psi_1e, psi_2b, psi_2e = s.split_psi()
     length = min(c + 1, abs(r - c) + 2 * (s.window - 1) + 1 + 1 + 1)
